@@ -45,6 +45,18 @@ def Gen.peek : Gen α → Option α
   | [] => none
   | x :: _ => x
 
+/-- `UnionTranslation` over leaf translations: `operator+=` keeps the non-exhausted ones, `Peek` / `Next` work on the front
+one and drop it when it is exhausted — the pieces one after the other -/
+def unionGen (ts : List (Gen α)) : Gen α := (ts.filter (fun t => !t.isEmpty)).flatten
+
+/-- `Peek` / `Next` / `exhausted` called `n` times on a leaf translation, past its exhaustion: `Peek` is null and `Next`
+false once it is exhausted (`UniqueTranslation`, `FifoTranslation`, `UnionTranslation`, `CacheTranslation`,
+`DistinctTranslation`, `PrefetchTranslation` all start with `if (exhausted()) return …`) -/
+def Gen.probe : Nat → Gen α → List (Option α × Bool × Bool)
+  | 0, _ => []
+  | n + 1, [] => (none, false, true) :: Gen.probe n []
+  | n + 1, x :: xs => (x, true, xs.isEmpty) :: Gen.probe n xs
+
 /-! ## MergedTranslation -/
 
 structure Merged (α : Type) where
@@ -104,6 +116,13 @@ def Merged.next (cmp : α → α → Int) (m : Merged α) : Merged α :=
     let trs1 := m.trs.set m.elected cur.tail                        -- translations_[elected_]->Next()
     let trs2 := if cur.tail.isEmpty then trs1.eraseIdx m.elected else trs1   -- erase if now exhausted
     Merged.elect cmp { m with trs := trs2 }
+
+/-- `Peek`, then `Next` (its value: `!exhausted()`), then `exhausted()`, `n` times, past the exhaustion -/
+def Merged.probe (cmp : α → α → Int) : Nat → Merged α → List (Option α × Bool × Bool)
+  | 0, _ => []
+  | n + 1, m =>
+    let m' := m.next cmp
+    (m.peek, !m'.exhausted, m'.exhausted) :: Merged.probe cmp n m'
 
 /-- `Menu::Menu` + `AddTranslation` for each translation in turn -/
 def Merged.ofList (cmp : α → α → Int) (ts : List (Gen α)) : Merged α :=
